@@ -201,7 +201,8 @@ where
                             if OSC_TERMINATORS.contains(&accu.as_str()) {
                                 break 'param_loop;
                             } else {
-                                param.push(accu.chars().next().unwrap());
+                                // ESC followed by anything but `\` is part of the string
+                                param.push_str(&accu);
                             }
                         }
 
@@ -325,7 +326,8 @@ where
                             if OSC_TERMINATORS.contains(&accu.as_str()) {
                                 break 'param_loop;
                             } else {
-                                param.push(accu.chars().next().unwrap());
+                                // ESC followed by anything but `\` is part of the string
+                                param.push_str(&accu);
                             }
                         }
 
